@@ -140,16 +140,26 @@ let c05 h : string list =
   let info = obj_info h calls in
   let hits = ref [] in
   let hit s = hits := s :: !hits in
-  (* insertion rank of an object: only for objects enqueued once *)
-  let count = Hashtbl.create 64 in
-  Array.iter (fun c -> if not c.nil then tbl_add count c.obj 1) calls;
+  (* insertion rank of the instance of an object that a batch carries: the k-th delivery of an object belongs to its
+     k-th accepted Enqueue (instances of one object keep their order in a FIFO buffer); only when those calls do not
+     overlap in time, otherwise unknown *)
+  let accepted = Hashtbl.create 64 and overlap = Hashtbl.create 8 and last_rt = Hashtbl.create 64 in
+  Array.iter (fun c ->
+      if not c.nil then begin
+        (match Hashtbl.find_opt last_rt c.obj with
+         | Some rt when c.ct < rt -> Hashtbl.replace overlap c.obj ()
+         | _ -> ());
+        match c.ret with
+        | Some (rt, 0) ->
+            Hashtbl.replace accepted c.obj ((try Hashtbl.find accepted c.obj with Not_found -> []) @ [(rt, if rt = c.ct then c.idx else -1)]);
+            Hashtbl.replace last_rt c.obj (max rt (try Hashtbl.find last_rt c.obj with Not_found -> 0))
+        | Some (rt, _) -> Hashtbl.replace last_rt c.obj (max rt (try Hashtbl.find last_rt c.obj with Not_found -> 0))
+        | None -> Hashtbl.replace overlap c.obj ()   (* a call that never returned *)
+      end) calls;
+  let ndeliv = Hashtbl.create 64 in
   let rank id =
-    if tbl_get count id <> 1 then None
-    else match Hashtbl.find_opt info id with
-      | Some c -> (match c.ret with
-          | Some (rt, 0) -> Some (rt, if rt = c.ct then c.idx else -1)
-          | _ -> None)
-      | None -> None in
+    if Hashtbl.mem overlap id && List.length (try Hashtbl.find accepted id with Not_found -> []) > 1 then None
+    else List.nth_opt (try Hashtbl.find accepted id with Not_found -> []) (tbl_get ndeliv id) in
   let before a b = (* a strictly inserted before b, when that is certain *)
     match a, b with
     | Some (ta, ia), Some (tb, ib) -> ta < tb || (ta = tb && ia >= 0 && ib >= 0 && ia < ib)
@@ -189,25 +199,35 @@ let c05 h : string list =
           if !nonb && n > 1 then hit (Printf.sprintf "c05:non-batchable-not-alone t=%d batch of %d contains a non-batchable operation" ln.t n);
           if not !nonb then Hashtbl.replace cyc w (n :: (try Hashtbl.find cyc w with Not_found -> []));
           (* order inside the batch and across batches *)
+          (* the rank of every position of the batch (an object may occur more than once in one batch) *)
+          let seen = Hashtbl.create 8 in
+          let ranked = List.map (fun id ->
+              let k = tbl_get seen id in
+              tbl_add seen id 1;
+              let r = if Hashtbl.mem overlap id && List.length (try Hashtbl.find accepted id with Not_found -> []) > 1 then None
+                else List.nth_opt (try Hashtbl.find accepted id with Not_found -> []) (tbl_get ndeliv id + k) in
+              (id, r)) ids in
+          let rank id = (try List.assoc id ranked with Not_found -> None) in
           let rec inorder = function
-            | a :: (b :: _ as r) ->
-                if before (rank b) (rank a) then hit (Printf.sprintf "c05:order-in-batch t=%d operation %d precedes %d in a batch but was enqueued after it" ln.t a b);
+            | (a, ra) :: (((b, rb) :: _) as r) ->
+                if before rb ra then hit (Printf.sprintf "c05:order-in-batch t=%d operation %d precedes %d in a batch but was enqueued after it" ln.t a b);
                 inorder r
             | _ -> () in
-          inorder ids;
+          inorder ranked;
           if h.maxconc = 0 then begin
             if !nonb then begin
               (match !last_nb, ids with
-               | Some p, [id] -> if before (rank id) (rank p) then hit (Printf.sprintf "c05:release-order t=%d non-batchable %d released after %d but enqueued before it" ln.t id p)
+               | Some (p, rp), [id] -> if before (rank id) rp then hit (Printf.sprintf "c05:release-order t=%d non-batchable %d released after %d but enqueued before it" ln.t id p)
                | _ -> ());
-              (match ids with [id] -> last_nb := Some id | _ -> ())
+              (match ids with [id] -> last_nb := Some (id, rank id) | _ -> ())
             end else begin
               (match Hashtbl.find_opt last_b w, ids with
-               | Some p, id :: _ -> if before (rank id) (rank p) then hit (Printf.sprintf "c05:release-order t=%d watcher %d: %d released after %d but enqueued before it" ln.t w id p)
+               | Some (p, rp), id :: _ -> if before (rank id) rp then hit (Printf.sprintf "c05:release-order t=%d watcher %d: %d released after %d but enqueued before it" ln.t w id p)
                | _ -> ());
-              (match List.rev ids with id :: _ -> Hashtbl.replace last_b w id | [] -> ())
+              (match List.rev ranked with (id, r) :: _ -> Hashtbl.replace last_b w (id, r) | [] -> ())
             end
-          end
+          end;
+          List.iter (fun id -> tbl_add ndeliv id 1) ids
       | _ -> ()) h.lines;
   end_cycle ();
   List.rev !hits
@@ -338,6 +358,7 @@ let c15 h : string list =
             (* callers parked at the hook by the harness are not counted *)
             hits := (Printf.sprintf "c15:blocked-after-shutdown gen=%d t=%d %d Enqueue calls are still blocked after the shutdown event" h.gen ln.t (ios pend - !parked)) :: !hits
       | _ -> ()) h.lines;
+  if h.hung then hits := (Printf.sprintf "c15:hang gen=%d the scenario deadlocked with Enqueue calls pending (real-time watchdog): a blocked Enqueue must return when the Batcher shuts down" h.gen) :: !hits;
   Array.iter (fun c ->
       match c.ret with
       | Some (t, 5) when not h.errfull -> hits := (Printf.sprintf "c15:bufferfull-in-blocking-mode t=%d" t) :: !hits
